@@ -17,15 +17,33 @@ MISSING = "No test cases have been provided for regular expression generation"
 MIN_REP = "Quantity of minimum repetitions must be greater than zero"
 MIN_LEN = "Minimum substring length must be greater than zero"
 
-ESC = re.compile(r"\\u\{([0-9a-f]{1,6})\}")
+HEX = "0123456789abcdef"
 
 
 def specified_rewrite(rust_out):
-    """The rewrite the binding is documented to perform, re-implemented independently."""
-    def rep(m):
-        v = int(m.group(1), 16)
-        return "\\u%04x" % v if v <= 0xFFFF else "\\U%08x" % v
-    return ESC.sub(rep, rust_out)
+    """The rewrite the binding is documented to perform, re-implemented independently: a scan in which an
+    escaped backslash is a literal (so the `u{2}` of `\\\\u{2}` is a quantified letter, not an escape)."""
+    out, i, n = [], 0, len(rust_out)
+    while i < n:
+        ch = rust_out[i]
+        if ch != "\\" or i + 1 >= n:
+            out.append(ch)
+            i += 1
+            continue
+        nxt = rust_out[i + 1]
+        if nxt == "u" and i + 2 < n and rust_out[i + 2] == "{":
+            j = i + 3
+            while j < n and rust_out[j] in HEX and j - (i + 3) < 6:
+                j += 1
+            if j > i + 3 and j < n and rust_out[j] == "}":
+                v = int(rust_out[i + 3:j], 16)
+                out.append("\\u%04x" % v if v <= 0xFFFF else "\\U%08x" % v)
+                i = j + 1
+                continue
+        out.append(ch)
+        out.append(nxt)
+        i += 2
+    return "".join(out)
 
 
 SETTERS = {
